@@ -196,6 +196,9 @@ func (p *PDU) RespReadBits() ([]bool, error) {
 	}
 
 	count := p.Data[0]
+	if len(p.Data) < 1+(int(count)+7)/8 {
+		return []bool{}, errors.New("RespReadBits not enough data")
+	}
 	ret := make([]bool, count)
 	byteIndex := 0
 	bitIndex := uint(0)
@@ -207,6 +210,32 @@ func (p *PDU) RespReadBits() ([]bool, error) {
 			byteIndex++
 			bitIndex = 0
 		}
+	}
+
+	return ret, nil
+}
+
+// respReadBitsCount reads count coils or discrete inputs from a
+// response PDU. The response only carries a byte count, so the
+// number of bits has to come from the request.
+func (p *PDU) respReadBitsCount(count int) ([]bool, error) {
+	switch p.FunctionCode {
+	case FuncCodeReadCoils, FuncCodeReadDiscreteInputs:
+		// ok
+	default:
+		return []bool{}, errors.New("invalid function code to read bits")
+	}
+
+	byteCount := (count + 7) / 8
+
+	if len(p.Data) < 1+byteCount || int(p.Data[0]) != byteCount {
+		return []bool{}, errors.New("response does not contain the requested number of bits")
+	}
+
+	ret := make([]bool, count)
+
+	for i := range ret {
+		ret[i] = ((p.Data[1+i/8] >> uint(i%8)) & 0x1) == 0x1
 	}
 
 	return ret, nil
